@@ -175,6 +175,16 @@ Definition mem_nat (x : nat) (l : list nat) : bool := existsb (Nat.eqb x) l.
 (* can a write to this connection's client make progress (or fail at once)? *)
 Definition can_write (c : conn) : bool := negb (stalled c) || interrupted c || eof c.
 
+(* StartTLS hands the socket to the TLS layer and gives the connection a fresh reader: requests
+   the client pipelined in the clear behind its StartTLS request (they sit in the old reader's
+   buffer) are dropped, never served; the handshake starts at the first bytes that are not such
+   a request *)
+Fixpoint after_plain (l : list item) : list item :=
+  match l with
+  | IReq _ _ :: r => after_plain r
+  | _ => l
+  end.
+
 (* does a write that is attempted now reach the client (else it fails at once)? *)
 Definition delivered (c : conn) : bool := negb (stalled c) && negb (interrupted c) && negb (eof c).
 Definition frame_of (c : conn) (h : hstep) : nat :=
@@ -186,7 +196,7 @@ Definition hstep_enabled (s : state) (c : conn) (h : hstep) : bool :=
   | HBarrier b => mem_nat b (released s)
   | HPanic => true
   | HWrite => can_write c
-  | HHandshake => match input c with IHello :: _ | IBad :: _ => true | _ => interrupted c || eof c end
+  | HHandshake => match after_plain (input c) with IHello :: _ | IBad :: _ => true | _ => interrupted c || eof c end
   end.
 
 (* ---------------------------------------------------------------- *)
@@ -247,7 +257,7 @@ Definition conn_step (cfg : config) (s : state) (c : conn) : option (conn * effe
     | HHandshake =>
       (* consumes the client's handshake bytes when they are there *)
       (* (bytes that are not a TLS ClientHello are consumed as well: the handshake fails at once) *)
-      let inp := match input c with IHello :: r | IBad :: r => r | i => i end in
+      let inp := match after_plain (input c) with IHello :: r | IBad :: r => r | _ => input c end in
       Some ({| cid := cid c; pc := CInline k rest; nreq := nreq c; nread := nread c; input := inp; eof := eof c; stalled := stalled c;
                interrupted := interrupted c; inflight := inflight c; hs := hs c; started := started c;
                ended := ended c; unbind_seen := unbind_seen c; read_after_unbind := read_after_unbind c;
